@@ -123,6 +123,30 @@ def run(ctx: Ctx):
                 ev.append({"k": "fold", "line": L(s), "limit": 75, "out": list(ln.to_ical())})
                 meta.append({"file": os.path.basename(f), "line": L(s)[:60]})
     ctx.notes.append(f"fixture lines validated by TLC: {nfix}")
+    # BEGIN / END lines are content lines like any other: a long (vendor) component name is folded as well
+    from icalendar import Component as _Cmp
+    for n in (60, 68, 69, 70, 74, 80, 120, 200):
+        for body in ("X-" + "V" * n, "X-" + "\u00c4" * (n // 2)):
+            c = _Cmp()
+            c.name = body
+            c.add("uid", "1")
+            out = c.to_ical()
+            ctx.case(("long-name", n, body[:4]), True)
+            phys = out.split(b"\r\n")
+            lines_, cur = [], None
+            for ph in phys:
+                if ph[:1] in (b" ", b"\t") and cur is not None:
+                    cur.append(ph)
+                else:
+                    cur = [ph]
+                    lines_.append(cur)
+            for grp in lines_:
+                if not grp[0]:
+                    continue
+                raw = b"\r\n".join(grp)
+                logical = (grp[0] + b"".join(g[1:] for g in grp[1:])).decode("utf-8", "replace")
+                ev.append({"k": "fold", "line": L(logical), "limit": 75, "out": list(raw)})
+                meta.append({"line": L(logical)[:40], "path": "Component.to_ical (long component name)"})
     # lines that are short in CHARACTERS and long in OCTETS, through the list-level and component-level serialisers
     # (a fast path that measures len(str) must not skip folding)
     from icalendar import Event as _Ev
